@@ -1,0 +1,15 @@
+//go:build verif
+
+package lightcone
+
+import "sort"
+
+// VerifRegistered returns the registered keys, sorted (verification only).
+func VerifRegistered() []string {
+	out := make([]string, 0, len(lightConeCatalog))
+	for k := range lightConeCatalog {
+		out = append(out, string(k))
+	}
+	sort.Strings(out)
+	return out
+}
